@@ -15,7 +15,7 @@ Proof. destruct rest; reflexivity. Qed.
 Lemma mepos_conv : forall e, wf_e e -> mepos (conv_e e) = epos e.
 Proof.
   destruct e; cbn [conv_e epos mepos wf_e]; intros Hw; try reflexivity;
-    [apply mepos_mk_member | apply mepos_group | contradiction].
+    [apply mepos_mk_member | apply mepos_group | contradiction | destruct k; reflexivity].
 Qed.
 Lemma combine_fst_snd : forall A C (l : list (A * C)), combine (map fst l) (map snd l) = l.
 Proof. induction l as [|[a c] l IH]; cbn; [reflexivity|]. rewrite IH. reflexivity. Qed.
@@ -32,15 +32,17 @@ Definition Aoe (o : oexpr) := wf_oe o -> nconv_oe o = conv_oe o.
 Definition Aditems (d : ditems) := wf_ditems d ->
   nconv_dkeys d = map fst (conv_ditems d) /\ nconv_dvals d = map snd (conv_ditems d).
 Definition Aparams (ps : params) := wf_params ps -> nconv_params ps = conv_params ps.
+Definition Agens (g : gens) := wf_gens g ->
+  nconv_gtargets g = conv_gtargets g /\ nconv_giters g = conv_giters g /\ nconv_gifs g = conv_gifs g.
 
 Lemma agree_e_all :
   (forall e, Ae e) /\ (forall es, Aes es) /\ (forall a, Aargs a) /\ (forall c, Acmps c) /\ (forall o, Aoe o) /\
-  (forall d, Aditems d) /\ (forall ps, Aparams ps).
+  (forall d, Aditems d) /\ (forall ps, Aparams ps) /\ (forall g, Agens g).
 Proof.
-  apply expr_all_mut; unfold Ae, Aes, Aargs, Acmps, Aoe, Aditems, Aparams; intros;
-    cbn [wf_e wf_es wf_args wf_cmps wf_oe wf_ditems wf_params] in *;
-    cbn [nconv_e nconv_es nconv_args nconv_cmps nconv_oe nconv_dkeys nconv_dvals nconv_params
-         conv_e conv_es conv_args conv_cmps conv_oe conv_ditems conv_params];
+  apply expr_all_mut; unfold Ae, Aes, Aargs, Acmps, Aoe, Aditems, Aparams, Agens; intros;
+    cbn [wf_e wf_es wf_args wf_cmps wf_oe wf_ditems wf_params wf_gens] in *;
+    cbn [nconv_e nconv_es nconv_args nconv_cmps nconv_oe nconv_dkeys nconv_dvals nconv_params nconv_gtargets nconv_giters nconv_gifs
+         conv_e conv_es conv_args conv_cmps conv_oe conv_ditems conv_params conv_gtargets conv_giters conv_gifs];
     try reflexivity; try contradiction.
   - (* EAttr *) rewrite H by auto. reflexivity.
   - (* ECall *) destruct H1. rewrite H, H0 by auto. reflexivity.
@@ -56,6 +58,12 @@ Proof.
   - (* ESubscript *) destruct H1. rewrite H, H0 by auto. reflexivity.
   - (* ESlice *) destruct H2 as [A [B C]]. rewrite H, H0, H1 by auto. reflexivity.
   - (* EStar *) rewrite H by auto. reflexivity.
+  - (* EComp *) destruct H1 as [A B]. destruct (H0 B) as [X [Y Z]]. cbv zeta. rewrite H, X, Y, Z by auto. reflexivity.
+  - (* EDictComp *) destruct H2 as [A [B C]]. destruct (H1 C) as [X [Y Z]]. rewrite H, H0, X, Y, Z by auto. reflexivity.
+  - (* EYield *) rewrite H by auto. reflexivity.
+  - (* EYieldFrom *) rewrite H by auto. reflexivity.
+  - (* EAwait *) rewrite H by auto. reflexivity.
+  - (* EWalrus *) rewrite H by auto. reflexivity.
   - (* ECons *) destruct H1. rewrite H, H0 by auto. reflexivity.
   - destruct H1. rewrite H, H0 by auto. reflexivity.
   - destruct H1. rewrite H, H0 by auto. reflexivity.
@@ -63,12 +71,14 @@ Proof.
   - (* DNil *) split; reflexivity.
   - (* DCons *) destruct H2 as [A [B C]]. destruct (H1 C) as [K V]. cbn [map fst snd]. rewrite H, H0, K, V by auto. split; reflexivity.
   - (* PCons *) destruct H1 as [Hsp [Hpo [Hd Hr]]]. subst sp. rewrite H, H0, Hpo by auto. reflexivity.
+  - (* GNil *) repeat split.
+  - (* GCons *) destruct H3 as [A [B [C D]]]. destruct (H2 D) as [X [Y Z]]. rewrite H, H0, H1, X, Y, Z by auto. repeat split.
 Qed.
 
 Definition agree_e := proj1 agree_e_all.
 Definition agree_es := proj1 (proj2 agree_e_all).
 Definition agree_oe := proj1 (proj2 (proj2 (proj2 (proj2 agree_e_all)))).
-Definition agree_params := proj2 (proj2 (proj2 (proj2 (proj2 (proj2 agree_e_all))))).
+Definition agree_params := proj1 (proj2 (proj2 (proj2 (proj2 (proj2 (proj2 agree_e_all)))))).
 
 Lemma agree_ckws : forall k, wf_ckws k -> nconv_ckws k = conv_ckws k.
 Proof. induction k; cbn [wf_ckws nconv_ckws conv_ckws]; intros; [reflexivity|]. destruct H. rewrite agree_e, IHk by auto. reflexivity. Qed.
